@@ -91,8 +91,8 @@ theorem handleReq_routed (env : Env) (q : Question) :
     rw [hj]
     simp only
     by_cases hr : r.reject > 0
-    · simp only [hr, ↓reduceIte]
-    · simp only [hr, ↓reduceIte]
+    · simp only [isReject, decide_eq_true_eq, hr, ↓reduceIte]
+    · simp only [isReject, decide_eq_true_eq, hr, ↓reduceIte]
       cases r.upstream with
       | none => rfl
       | some u =>
